@@ -20,6 +20,7 @@ from spec import state as ST
 from spec import prims as P
 from spec.rt import bits, bit
 from . import machine as MC
+from .common import own_frame, ALSO_MEM
 
 ASSUMPTIONS = ['translate_address / alignment_fault are abstract (any regime, any fault pattern): they are verified in C14/C15',
                'physical memory is the abstract hub HubRead<n>/HubWrite<n>; little-endian byte meaning is C16']
@@ -168,6 +169,7 @@ def make_unit(name, size, write, kind):
                 eng.oblige('safe.host', '%s raises %s' % (name, e.exc.cls.__name__), False, detail=str(e.exc.attrs.get('args')))
                 return
         final = mach.read()
+        own_frame(eng, name)
         # ---------------- expected behaviour (pseudocode) on this path
         st = init
         cur_priv = mode0 != ST.USR
@@ -285,8 +287,9 @@ def make_unit(name, size, write, kind):
     def replay(inputs, ob):
         return c13_replay(name, size, write, kind, inputs, ob)
 
-    # C14 depends on these units too: the direction (WnR) and address handed to alignment_fault / translate_address by the accessors
-    return Unit(uid, ['C13', 'C14'], symbolic, replay, {'contracts': {}, 'max_paths': 4000}, meta={'function': '%s.ArmV6.%s' % (A.__module__, name)})
+    # dependency units: C14 (direction/address handed to alignment_fault / translate_address) and C02/C03 (the step-level proofs of
+    # loads and stores use these accessors through their abstract L5 contracts: byte order, alignment policy, privilege)
+    return Unit(uid, ['C13', 'C14', 'C02', 'C03'], symbolic, replay, {'contracts': {}, 'max_paths': 4000}, meta={'function': '%s.ArmV6.%s' % (A.__module__, name), 'also': ALSO_MEM})
 
 
 def native_expected(name, size, write, kind, cpu, address, priv_arg, wasal_arg, value, fault_at):
@@ -521,6 +524,7 @@ def fetch_unit(iset):
                 eng.oblige('safe.host', 'fetch_instruction raises %s' % e.exc.cls.__name__, False)
                 return
         final = mach.read()
+        own_frame(eng, 'fetch_instruction')
         priv = mode0 != ST.USR
         pc = init['R.PC']
         exp = []
@@ -613,7 +617,7 @@ def fetch_unit(iset):
         lines = ['fetch at pc=%s CPSR.E=%d: real opcode %s len %s ; architectural %s len %d ; accesses %s' % (
             hex(pc), (cpu.registers.cpsr.value >> 9) & 1, hex(r), cpu.opcode_len, hex(exp), elen, log)]
         return (r != exp or cpu.opcode_len != elen), '\n'.join(lines)
-    return Unit(uid, ['C13'], symbolic, replay, {'contracts': {}}, meta={'function': '%s.ArmV6.fetch_instruction' % A.__module__})
+    return Unit(uid, ['C13'], symbolic, replay, {'contracts': {}}, meta={'function': '%s.ArmV6.fetch_instruction' % A.__module__, 'also': ALSO_MEM})
 
 
 def units(tier):
